@@ -46,7 +46,7 @@ func (t *W) Op(op, obs string) {
 	// few times the verdict is settled, stop instead of running for an hour.
 	if strings.HasPrefix(obs, "HANG") || strings.Contains(obs, " HANG") {
 		t.hangs++
-		if t.hangs >= MaxHangs {
+		if MaxHangs > 0 && t.hangs >= MaxHangs {
 			fmt.Fprintf(t.w, "# aborted after %d HANG observations\n", t.hangs)
 			t.Close()
 			os.Exit(0)
@@ -54,8 +54,10 @@ func (t *W) Op(op, obs string) {
 	}
 }
 
-// MaxHangs is the number of HANG observations after which a driver stops.
-var MaxHangs = 6
+// MaxHangs is the number of HANG observations after which a driver stops
+// (0 = never).  Drivers for which a HANG is never expected on a correct tree
+// set it; drivers that probe known hangs do not.
+var MaxHangs = 0
 
 func (t *W) Line(format string, a ...any) {
 	fmt.Fprintf(t.w, format+"\n", a...)
